@@ -13,7 +13,7 @@ use mul::BoxedMontyMultiplier;
 
 use crate::{BoxedUint, Limb, Monty, Odd, Word};
 use alloc::sync::Arc;
-use subtle::Choice;
+use subtle::{Choice, ConstantTimeEq};
 
 #[cfg(feature = "zeroize")]
 use zeroize::Zeroize;
@@ -148,7 +148,7 @@ impl BoxedMontyParams {
 }
 
 /// An integer in Montgomery form represented using heap-allocated limbs.
-#[derive(Clone, Debug, Eq, PartialEq)]
+#[derive(Clone, Debug)]
 pub struct BoxedMontyForm {
     /// Value in the Montgomery form.
     montgomery_form: BoxedUint,
@@ -156,6 +156,18 @@ pub struct BoxedMontyForm {
     /// Montgomery form parameters.
     params: Arc<BoxedMontyParams>,
 }
+
+impl PartialEq for BoxedMontyForm {
+    fn eq(&self, other: &Self) -> bool {
+        // Both comparisons are always evaluated (no `&&`): whether the (secret) values are equal
+        // must not decide whether the parameters get compared.
+        let values: bool = self.montgomery_form.ct_eq(&other.montgomery_form).into();
+        let params = self.params == other.params;
+        values & params
+    }
+}
+
+impl Eq for BoxedMontyForm {}
 
 impl BoxedMontyForm {
     /// Instantiates a new [`BoxedMontyForm`] that represents an integer modulo the provided params.
